@@ -119,15 +119,28 @@ func decodeLoop(p api.XProtocol, sum sumFn, chunks [][]byte) (so streamObs) {
 	rp := &relPrinter{whole}
 	buf := buffer.NewIoBuffer(16)
 	ctx := context.Background()
+	// The extracted frames are RETAINED and summarised only after all reads (and one more reuse of the read buffer):
+	// the stream layer hands a frame to the proxy, which uses it later (worker pool), while the connection goes on reading
+	// into the same read buffer.  A frame that aliases the read buffer shows up as changed content here.
+	type ev struct {
+		kind byte // 'F' frame, 'R' error reply, 'C' close, 'H' hang
+		f    interface{}
+	}
+	var evs []ev
 	for _, c := range chunks {
 		if so.Closed {
 			break
+		}
+		// connection.doRead uses IoBuffer.ReadOnce, which RESETS an empty buffer and reads to its start (Write would append
+		// behind the drained bytes while capacity lasts)
+		if buf.Len() == 0 {
+			buf.Reset()
 		}
 		buf.Write(c)
 		func() {
 			defer func() {
 				if rec := recover(); rec != nil {
-					so.Events = append(so.Events, "C")
+					evs = append(evs, ev{kind: 'C'})
 					so.Closed = true
 				}
 			}()
@@ -136,7 +149,7 @@ func decodeLoop(p api.XProtocol, sum sumFn, chunks [][]byte) (so streamObs) {
 					return
 				}
 				if iter > 1<<20 {
-					so.Events = append(so.Events, "HANG")
+					evs = append(evs, ev{kind: 'H'})
 					so.Closed = true
 					return
 				}
@@ -148,27 +161,57 @@ func decodeLoop(p api.XProtocol, sum sumFn, chunks [][]byte) (so streamObs) {
 					if f != nil {
 						if xf, ok := f.(api.XFrame); ok && xf.GetStreamType() == api.Request {
 							// handleError answers the request, the connection stays open, Dispatch goes on with the buffer
-							s, _ := sum(f, rp)
-							so.Events = append(so.Events, "R:"+s)
+							evs = append(evs, ev{'R', f})
 							continue
 						}
 					}
-					so.Events = append(so.Events, "C")
+					evs = append(evs, ev{kind: 'C'})
 					so.Closed = true
 					return
 				}
-				s, ok := sum(f, rp)
-				if !ok {
-					so.Events = append(so.Events, "C")
+				if _, ok := sum(f, rp); !ok {
+					evs = append(evs, ev{kind: 'C'})
 					so.Closed = true
 					return
 				}
-				so.Events = append(so.Events, "F:"+s)
+				evs = append(evs, ev{'F', f})
 			}
 		}()
 	}
 	so.Left = buf.Len()
+	// the connection reads again into its read buffer (only when nothing is pending: the residue must stay intact)
+	if !so.Closed && buf.Len() == 0 {
+		junk := make([]byte, 96)
+		for i := range junk {
+			junk[i] = 0x5a
+		}
+		buf.Reset()
+		buf.Write(junk)
+		buf.Drain(len(junk))
+	}
+	for _, e := range evs {
+		switch e.kind {
+		case 'C':
+			so.Events = append(so.Events, "C")
+		case 'H':
+			so.Events = append(so.Events, "HANG")
+		default:
+			s, _ := sum(e.f, rp)
+			so.Events = append(so.Events, string(e.kind)+":"+s)
+		}
+	}
 	return
+}
+
+// frameAlone: the summary of one frame decoded from a private copy of its bytes (reference for "what was sent"),
+// printed relative to the same stream
+func frameAlone(p api.XProtocol, sum sumFn, fb []byte, stream []byte) (string, bool) {
+	f, err := p.Decode(context.Background(), buffer.NewIoBufferBytes(append([]byte{}, fb...)))
+	if f == nil || err != nil {
+		return "", false
+	}
+	s, ok := sum(f, &relPrinter{stream})
+	return "F:" + s, ok
 }
 
 func (s streamObs) coqEvents() string {
